@@ -6,6 +6,7 @@
    protocol permits" (justified clause by clause in Model/WireNdiscOpt.v / Model/WireNdisc.v). *)
 From SV Require Import Lib.Base Gen.WireFields Model.WireBase Proofs.WireBaseProofs.
 From SV Require Import Model.WireIpv6 Model.WireNdiscOpt Proofs.WireNdiscOptProofs.
+From SV Require Import Model.WireIcmpv6Hdr Proofs.WireIcmpv6HdrProofs Model.WireNdisc Proofs.WireNdiscProofs.
 
 (* ---------------- NDISC option (src/wire/ndiscoption.rs) ----------------
    Link-layer addresses are 6 or 8 octets, so the option is 8 or 16 octets (6 padding octets);
@@ -43,3 +44,51 @@ Theorem C06_ndopt_reparse : forall bs r,
     exists bs', ndopt_emit r b = Ok bs' /\ ndopt_parse bs' = Ok r.
 Proof. exact ndopt_reparse. Qed.
 Print Assumptions C06_ndopt_reparse.
+
+(* ---------------- NDISC messages (src/wire/ndisc.rs) ----------------
+   NdiscRepr::emit does not own the ICMPv6 checksum field (octets 2..3): it is only called from
+   Icmpv6Repr::emit, which ends with fill_checksum / set_checksum(0).  The emit theorems are
+   therefore stated for [ndisc_icmp_emit] = NdiscRepr::emit followed by that checksum step
+   ([sum_fill] = `!checksum::combine(..)` of property C08, [tx] = caps.icmpv6.tx());
+   [C06_ndisc_raw_emit_no_panic] is NdiscRepr::emit alone.  NdiscRepr::parse verifies no
+   checksum, so [C06_ndisc_roundtrip] needs no hypothesis about it; [C06_ndisc_icmp_roundtrip]
+   goes through Icmpv6Repr::parse (checksum verified when [rx]; [icmp6h_cksum_link]: the
+   value stored by fill_checksum verifies - the arithmetic is C08's). *)
+
+Theorem C06_ndisc_raw_emit_no_panic : forall r b,
+  ndisc_wf r = true -> blen b = ndisc_buffer_len r -> ndisc_emit r b <> Panic.
+Proof. exact ndisc_emit_no_panic. Qed.
+Print Assumptions C06_ndisc_raw_emit_no_panic.
+
+Theorem C06_ndisc_emit_no_panic : forall (sum_fill : list Z -> Z) tx r b,
+  ndisc_wf r = true -> blen b = ndisc_buffer_len r -> ndisc_icmp_emit sum_fill tx r b <> Panic.
+Proof. exact ndisc_icmp_emit_no_panic. Qed.
+Print Assumptions C06_ndisc_emit_no_panic.
+
+Theorem C06_ndisc_emit_ignores_old_bytes : forall (sum_fill : list Z -> Z) tx r b1 b2,
+  ndisc_wf r = true -> blen b1 = ndisc_buffer_len r -> blen b2 = ndisc_buffer_len r ->
+  ndisc_icmp_emit sum_fill tx r b1 = ndisc_icmp_emit sum_fill tx r b2.
+Proof. exact ndisc_emit_ignores_old_bytes. Qed.
+Print Assumptions C06_ndisc_emit_ignores_old_bytes.
+
+Theorem C06_ndisc_roundtrip : forall (sum_fill : list Z -> Z) tx r b,
+  ndisc_wf r = true -> blen b = ndisc_buffer_len r ->
+  exists bs, ndisc_icmp_emit sum_fill tx r b = Ok bs /\ blen bs = ndisc_buffer_len r /\
+             ndisc_parse bs = Ok r.
+Proof. exact ndisc_roundtrip. Qed.
+Print Assumptions C06_ndisc_roundtrip.
+
+Theorem C06_ndisc_icmp_roundtrip : forall (sum_ok : list Z -> bool) (sum_fill : list Z -> Z) tx rx r b,
+  icmp6h_cksum_link sum_ok sum_fill -> (rx = true -> tx = true) ->
+  ndisc_wf r = true -> blen b = ndisc_buffer_len r ->
+  exists bs, ndisc_icmp_emit sum_fill tx r b = Ok bs /\ ndisc_icmp_parse sum_ok rx bs = Ok r.
+Proof. exact ndisc_icmp_roundtrip. Qed.
+Print Assumptions C06_ndisc_icmp_roundtrip.
+
+Theorem C06_ndisc_reparse : forall (sum_fill : list Z -> Z) tx bs r,
+  bytes_ok bs = true -> ndisc_parse bs = Ok r ->
+  ndisc_wf r = true /\
+  forall b, blen b = ndisc_buffer_len r ->
+    exists bs', ndisc_icmp_emit sum_fill tx r b = Ok bs' /\ ndisc_parse bs' = Ok r.
+Proof. exact ndisc_reparse. Qed.
+Print Assumptions C06_ndisc_reparse.
